@@ -23,15 +23,19 @@ PROP = "C12"
 RULE = ("dense movies (rings, blobs of points, chains; 3-14 features per frame within range of "
         "each other), adaptive size limit 2-6 or the default 15, adaptive_step in {1/2,3/4,7/8}, "
         "adaptive_stop chosen so that 0-6 reductions are possible, scalar and per-axis ranges, "
-        "strategies recursive / nonrecursive / numba.  Non-trivial = at least one group needed a "
+        "strategies recursive / nonrecursive / numba / hybrid; plus a stream of 1-3 tracks facing 9-16 new "
+        "features within range (numba_link's 9-candidate cap inside the adaptive recursion).  Non-trivial = at least one group needed a "
         "range reduction, or the run raised at adaptive_stop; distinct = distinct canonical input.")
 ASSUMPTIONS = [
     "adaptive_step is a dyadic rational and ranges are multiples of 1/4 and 1/8: the reduced "
     "ranges and every comparison dist <= new_range are exact in float64 (at most 6 reductions)",
     "MAX_SUB_NET_SIZE_ADAPTIVE is patched on the Linker class from the harness (class attribute, "
     "as the property's quantifier names it)",
-    "the numba strategy's extra 9-candidate cap also raises SubnetOversizeException and thereby "
-    "triggers a reduction; inputs where a source has more than 8 candidates are not sent to numba",
+    "the numba / hybrid strategies' extra 9-candidate cap also raises SubnetOversizeException and "
+    "thereby triggers a reduction: judged by the monitor stepCheckAN (Model/AdaptiveNumba.lean, token "
+    "nmode=1|2), whose plans apply that cap exactly where subnet_linker_numba dispatches to numba_link; "
+    "the deterministic algorithm model (function mode) follows the cap-free plan and is only compared "
+    "on movies where the cap changed no plan (ndiff=0)",
 ]
 MIN_NONTRIVIAL = 20
 
@@ -95,6 +99,36 @@ def gen_dense(rng, thorough):
                 step=list(pq), stop8=sigma)
 
 
+def gen_numbacap(rng, thorough):
+    """few tracks, 9-13 new features within range of them: the groups are within the size limit but a
+    source has >= 9 real candidates -> numba_link's candidate cap (numba always, hybrid unless the
+    group has a single source), which adaptive_link_wrap treats like an oversize group"""
+    import itertools
+    dim = rng.choice([2, 2, 3])
+    r = rng.choice([12, 16, 20])            # quarters: range 3, 4, 5
+    sr = [r] * dim
+    R = r // 4
+    c = [20] * dim
+    ns = rng.choice([1, 1, 2, 2, 3])
+    near = [list(p) for p in itertools.product(range(-1, 2), repeat=dim)]
+    srcs = [[ci + d for ci, d in zip(c, off)] for off in rng.sample(near, ns)]
+    ball = [list(p) for p in itertools.product(range(-R, R + 1), repeat=dim)
+            if sum(x * x for x in p) <= (R - 1) * (R - 1) + 1]
+    nd = rng.randint(9, min(13 if not thorough else 16, len(ball)))
+    dests = [[ci + d for ci, d in zip(c, off)] for off in rng.sample(ball, nd)]
+    frames = [srcs, dests]
+    if rng.random() < 0.5:
+        frames.append([list(p) for p in rng.sample(dests, rng.randint(1, 3))])
+    if rng.random() < 0.3:
+        frames.insert(0, [list(p) for p in srcs])
+    rmin = r
+    sigma = rng.randint(max(1, int(0.2 * 2 * rmin)), int(1.05 * 2 * rmin))
+    return dict(stream="numbacap", dim=dim, frames=frames, t0=rng.choice([0, 3]), sr=sr, iso=True,
+                memory=rng.choice([0, 0, 1]), strategy=rng.choice(["numba", "hybrid", "numba", "hybrid", "recursive"]),
+                entry=rng.choice(["link_iter", "link_iter", "link_df_iter"]), maxa=rng.choice([3, 4, 6, 15]),
+                step=list(rng.choice([(1, 2), (3, 4), (7, 8)])), stop8=sigma)
+
+
 def gen_cases(ctx):
     for inp in ctx.corpus():
         yield inp
@@ -102,6 +136,8 @@ def gen_cases(ctx):
     for i in range(n):
         rng = ctx.rng("dense", i)
         yield gen_dense(rng, ctx.thorough)
+    for i in range(ctx.n(80, 1000)):
+        yield gen_numbacap(ctx.rng("numbacap", i), ctx.thorough)
 
 
 def acfg_tokens(inp):
@@ -240,19 +276,17 @@ def oracle_adaptive(inp, levels):
 
 def run_case(ctx, inp):
     res = Result()
-    if inp["strategy"] == "numba":
-        w, B = linkcommon.weights(inp["sr"])
-        # the numba path has its own cap: skip movies where some source could see > 8 candidates
-        big = any(len(f) > 8 for f in inp["frames"])
-        if big:
-            inp = dict(inp, strategy="recursive")
     levels = run_adaptive_impl(inp)
     if levels is None or levels == "oversize":
         res.stat("no_output")
         return res
-    line = "ARUN " + acfg_tokens(inp) + " " + linkcommon.lrun_line(inp, levels)[len("LRUN "):]
+    # numba / hybrid: the 9-candidate cap of numba_link is part of the adaptive plan (stepCheckAN)
+    nmode = {"numba": 1, "hybrid": 2}.get(inp["strategy"], 0)
+    line = "ARUN " + acfg_tokens(inp) + (" nmode=%d " % nmode if nmode else " ") + \
+        linkcommon.lrun_line(inp, levels)[len("LRUN "):]
     m = common.kv(ctx.ask(line))
     res.stat("movies")
+    res.stat("stream_" + inp.get("stream", "adaptive"))
     res.stat("maxa_%d" % inp["maxa"])
     res.stat("strategy_" + inp["strategy"])
     v = m.get("verdict")
@@ -266,10 +300,14 @@ def run_case(ctx, inp):
         if v == "capped":
             res.stat("capped")
         res.nontrivial = red > 0 or v == "expect-oversize"
+        ndiff = int(m.get("ndiff", 0))
+        if ndiff:
+            res.stat("numba_cap_changed_plan_steps", ndiff)
+            res.stat("numba_cap_movies")
         # function mode: the monitor accepted the output and the optimum of every final group of
         # every step is unique (and no step was beyond a cap) -> the implementation's partition
         # must be the one of the deterministic adaptive algorithm (Props/C12Algo algoA_accepted)
-        if v == "ok" and not raised and m.get("ties") == "0" and m.get("capsteps") == "0":
+        if v == "ok" and not raised and m.get("ties") == "0" and m.get("capsteps") == "0" and ndiff == 0:
             a = ctx.ask("AALGO" + line[len("ARUN"):])
             res.stat("function_mode_asked")
             if a.startswith("ok"):
